@@ -866,6 +866,8 @@ def c10(ctx):
     thorough = ctx.tier == "thorough"
     tlc_must_hold(ctx, "Sessions", "Sessions_MC.cfg", timeout=1200)
     tlc_must_fail(ctx, "Sessions", "Sessions_Attack_UnlockedLookup.cfg")
+    tlc_must_fail(ctx, "Sessions", "Sessions_Attack_NoStrip.cfg")
+    tlc_must_fail(ctx, "Sessions", "Sessions_Attack_SessionCookieShown.cfg")
     gen = tlc_generate(ctx, "SessionsGen", "SessionsGen.cfg", "sessions_domains.json")
     dom = json.load(open(gen))
     rnd = random.Random(ctx.seed)
@@ -1085,9 +1087,26 @@ def c14(ctx):
                        "'already framed' = Sec-Fetch-Mode nested-navigate, Sec-Fetch-Dest iframe, or a Referer with the same host and path"]
     tlc_must_hold(ctx, "Inject", "Inject_MC.cfg")
     gen = tlc_generate(ctx, "InjectGen", "InjectGen.cfg", "inject_domains.json")
-    dom = json.load(open(gen))
+    exported = json.load(open(gen))
+    dom = exported["dom"]
     rnd = random.Random(ctx.seed)
-    must = [{"banner": True, "shim": True, "method": "GET", "accept": "html", "status": 200, "ctype": "html", "dispo": "none", "mode": "none", "dest": "none", "referer": "none", "body": "head-early"},
+    # one representative per element of the product of the decision model's strata (exported by TLC from the
+    # predicates of Inject.tla) x banner x shim: every branch combination of the decision is exercised
+    import itertools
+    strata_fields = sorted(exported["strata"].keys())
+    stratified = []
+    for combo in itertools.product(*[range(len(exported["strata"][f])) for f in strata_fields]):
+        for fr in exported["framed"]:
+            for bn in (True, False):
+                for sh in (True, False):
+                    if ctx.tier != "thorough" and not bn and not sh and rnd.random() < 0.75:
+                        continue    # nothing enabled: a quarter of these strata per quick run
+                    fixed = {f: rnd.choice(exported["strata"][f][k]) for f, k in zip(strata_fields, combo)}
+                    fixed.update({f: rnd.choice(v) for f, v in fr.items()})
+                    fixed.update({"banner": bn, "shim": sh})
+                    stratified.append(fixed)
+    ctx.extra["decision_strata"] = len(stratified)
+    must = stratified + [{"banner": True, "shim": True, "method": "GET", "accept": "html", "status": 200, "ctype": "html", "dispo": "none", "mode": "none", "dest": "none", "referer": "none", "body": "head-early"},
             {"banner": True, "shim": True, "method": "GET", "accept": "html", "status": 200, "ctype": "html", "dispo": "none", "mode": "nested-navigate", "dest": "none", "referer": "none", "body": "head-early"},
             {"banner": False, "shim": True, "method": "GET", "accept": "html", "status": 200, "ctype": "html-charset", "dispo": "none", "body": "two-heads", "first": "all"},
             {"banner": False, "shim": True, "method": "GET", "accept": "json", "status": 200, "ctype": "json", "dispo": "none", "body": "head-early", "first": "all"},
@@ -1292,11 +1311,20 @@ def app_model(ctx):
 def c17(ctx):
     ctx.rule = ("cases = all 240 combinations of agent endpoint {pending, request, response} x caller identity {absent, wrong, right, other backend's agent, end user} x "
                 "backend named {own, other, unknown, missing} x request ID {own, other backend's, unknown, none} enumerated by TLC, against the real app (agent/default/"
-                "api services as processes) with two registered backends and a fake App Engine API; 18 admin-API calls (6 caller kinds x list/add/delete); distinct = combinations")
+                "api services as processes) with two registered backends and a fake App Engine API; 18 admin-API calls (6 caller kinds x list/add/delete); plus every "
+                "registration history over {register for agent 1, register for agent 2, delete, call by agent 1, call by agent 2} up to length 4 (thorough: 5) that ends with "
+                "a call and contains an administration step (282 / 1500 histories enumerated by TLC from AppAuth.tla), each call judged against the registration in force; "
+                "distinct = combinations + histories")
     ctx.assumptions = ["OAuth identities are supplied through the fake API's GetOAuthUser (ticket header), App Engine users through X-AppEngine-User-* headers",
                        "'learns nothing' = the reply contains neither request bytes nor request IDs; 'touches only that backend' = no datastore kind of another backend is accessed"]
     app_model(ctx)
+    tlc_must_hold(ctx, "AppAuth", "AppAuth_MC.cfg")
+    tlc_must_fail(ctx, "AppAuth", "AppAuth_Attack_StaleGrants.cfg")
     d, cpath = app_cases(ctx)
+    hist = json.load(open(tlc_generate(ctx, "AppAuthGen", "AppAuthGen_big.cfg" if ctx.tier == "thorough" else "AppAuthGen.cfg", "auth_histories.json")))["histories"]
+    d["histories"] = hist
+    json.dump(d, open(cpath, "w"))
+    ctx.extra["registration_histories"] = len(hist)
     go_build_repo(ctx, "./app", "app")
     go_build_harness(ctx)
     events, _ = drive(ctx, "appauth", cases=cpath, timeout=3000)
